@@ -80,6 +80,12 @@ def any_dependency_to_module_other_than(
             except KeyError:
                 pass
 
+    # the modules of the dependent itself always have to be analysed, even if they are also part of a dependent upon
+    # module. Example: A.X should not import anything except A - A.X is a submodule of A, but its imports still count
+    dependent_nodes = set(nodes_that_do_not_fulfill_criterion)
+    if dependent.identifier_is_parent_module:
+        dependent_nodes.discard(dependent.identifier)
+
     nodes_to_check = list(nodes_that_do_not_fulfill_criterion)
     checked_nodes = set()
 
@@ -89,7 +95,7 @@ def any_dependency_to_module_other_than(
         if node in checked_nodes:
             continue
 
-        if node in nodes_to_exclude:
+        if node in nodes_to_exclude and node not in dependent_nodes:
             continue
 
         checked_nodes.add(node)
